@@ -3,7 +3,8 @@ code-level theorems depend on, and the harness module that runs the corresponden
 
 PROPS = {
     "C07": dict(
-        lean_core=["Props.C07"], lean_code=[], gen_funcs=[], harness="c07",
+        lean_core=["Props.C07"], lean_code=["Props.GenTie.Vlq"],
+        gen_funcs=["stream_serialize_vlq", "stream_deserialize_vlq"], harness="c07",
         assumptions=["SHA-256 of the driver validated against hashlib on every run; theorems hold for every hash function",
                      "Python `cached_hash or …`: an empty cached hash is not modelled (hashes are 32 bytes)"]),
     "C11": dict(
